@@ -116,6 +116,66 @@ def check_cfg(r, cfg, n, only=None):
                             got if st == 'ok' else repr(got))
 
 
+AWKWARD = ['0', '0.07', '0.125', '0.14', '0.25', '0.28', '0.29', '0.3', '0.333', '0.335', '0.35', '0.375', '0.4', '0.45', '0.5', '0.55',
+           '0.56', '0.57', '0.58', '0.6', '0.625', '0.667', '0.7', '0.71', '0.75', '0.875', '0.9', '1']
+
+
+def check_gc_wide(r, k, lo, hi, n):
+    """GC rule alone at a wider window: the verdict depends only on the G/C vs A/T class of every
+    symbol, so all strings over {A,C} up to length n decide it."""
+    cfg = (k, None, (lo, hi), None)
+    case0 = {'cfg': [k, None, [lo, hi], None], 'wide': True}
+    st, f, _ = brun(make_filter, cfg)
+    r.trans += 1
+    if st != 'ok':
+        r.v('C12|constructor|rejects-legal-configuration', 'wide', dict(case0, strings=[]), 'accepted', f)
+        return
+    c = O.compile_cfg(cfg)
+    r.states += 1
+    r.nontriv += 1
+    for s in U.all_strings(n, 'AC', nmin=max(0, k - 2)):
+        exp = O.seq_ok_c(c, s)
+        st, got, _ = brun(f.valid, s, only_last=False)
+        st2, last, _ = brun(f.valid, s)
+        r.trans += 2
+        r.evals += 1
+        if st != 'ok' or bool(got) != exp:
+            r.v(sig_of(cfg, s, 'whole-sequence-verdict|wide-window'), 'wide', dict(case0, strings=[s]), exp, got if st == 'ok' else repr(got))
+        e2 = O.seq_ok_c(c, s[-k:])
+        if st2 != 'ok' or bool(last) != e2:
+            r.v(sig_of(cfg, s, 'last-window-verdict|wide-window'), 'wide', dict(case0, strings=[s]), e2, last if st2 == 'ok' else repr(last))
+        r.ctr['true_verdicts' if exp else 'false_verdicts'] += 1
+
+
+def check_long_strings(r, cfg):
+    """Long strings (50 nt): periodic backgrounds with a run or a motif planted at every offset."""
+    k = cfg[0]
+    case0 = {'cfg': [cfg[0], cfg[1], list(cfg[2]) if cfg[2] else None, cfg[3]], 'long': True}
+    st, f, _ = brun(make_filter, cfg)
+    if st != 'ok':
+        return
+    c = O.compile_cfg(cfg)
+    plants = ['AAAAAAA', 'GGGG', 'GC', 'GGC', 'TT', 'ACG', 'CGT', 'AGCT', 'CCCCCGGGGG', 'N']
+    bgs = [''.join(p) for n in (1, 2, 3) for p in itertools.product('ACGT', repeat=n)]
+    r.states += 1
+    for bg in bgs[::1 if k <= 6 else 3]:
+        base = (bg * 60)[:50]
+        for pl in plants:
+            for off in range(0, 50 - len(pl), 1 if len(bg) == 1 else 3):
+                s = base[:off] + pl + base[off + len(pl):]
+                exp = O.seq_ok_c(c, s)
+                st, got, _ = brun(f.valid, s, only_last=False)
+                st2, last, _ = brun(f.valid, s)
+                r.trans += 2
+                r.evals += 1
+                if st != 'ok' or bool(got) != exp:
+                    r.v(sig_of(cfg, s, 'whole-sequence-verdict|long-string'), 'long', dict(case0, strings=[s]), exp, got if st == 'ok' else repr(got))
+                e2 = O.seq_ok_c(c, s[-k:])
+                if st2 != 'ok' or bool(last) != e2:
+                    r.v(sig_of(cfg, s, 'last-window-verdict|long-string'), 'long', dict(case0, strings=[s]), e2, last if st2 == 'ok' else repr(last))
+                r.ctr['true_verdicts' if exp else 'false_verdicts'] += 1
+
+
 def check_ctor(r):
     """Constructor: rejects run > window and motif > window with ValueError."""
     import dsw
@@ -126,16 +186,26 @@ def check_ctor(r):
             r.evals += 1
             if not (st == 'exc' and isinstance(f, ValueError)):
                 r.v('C12|constructor|run-longer-than-window-accepted', 'ctor', {'k': k, 'run': run}, 'ValueError', repr(f))
-        st, f, _ = brun(dsw.LocalBioFilter, observed_length=k, undesired_motifs=['A' * (k + 1)])
-        r.trans += 1
-        r.evals += 1
-        if not (st == 'exc' and isinstance(f, ValueError)):
-            r.v('C12|constructor|motif-longer-than-window-accepted', 'ctor', {'k': k, 'motif': 'A' * (k + 1)}, 'ValueError', repr(f))
+        long_ = 'GGATCCAG'[:k + 1] if k + 1 <= 8 else 'G' * (k + 1)
+        for mots in (['A' * (k + 1)], ['TA'[:k], long_], [long_, 'TA'[:k]], ['C', long_, 'T'], [long_, long_ + 'A']):
+            st, f, _ = brun(dsw.LocalBioFilter, observed_length=k, undesired_motifs=mots)
+            r.trans += 1
+            r.evals += 1
+            if not (st == 'exc' and isinstance(f, ValueError)):
+                r.v('C12|constructor|motif-longer-than-window-accepted', 'ctor', {'k': k, 'motifs': mots}, 'ValueError', repr(f))
 
 
 def check_case(r, kind, case):
     if kind == 'ctor':
         check_ctor(r)
+        return
+    if kind == 'wide':
+        c = case['cfg']
+        check_gc_wide(r, c[0], c[2][0], c[2][1], max([len(x) for x in case.get('strings') or ['']] + [c[0]]))
+        return
+    if kind == 'long':
+        c = case['cfg']
+        check_long_strings(r, (c[0], c[1], tuple(c[2]) if c[2] else None, c[3]))
         return
     cfg = case['cfg']
     cfg = (cfg[0], cfg[1], tuple(cfg[2]) if cfg[2] else None, cfg[3])
@@ -158,6 +228,21 @@ def _w(chunk):
     return r
 
 
+def _w_wide(chunk):
+    r = core.Res()
+    for k, lo, hi, n in chunk:
+        check_gc_wide(r, k, lo, hi, n)
+    r.sample({'cfg': [chunk[-1][0], None, [chunk[-1][1], chunk[-1][2]], None], 'strings': 'all strings over {A,C} of length k-2..%d' % chunk[-1][3]}, 1)
+    return r
+
+
+def _w_long(chunk):
+    r = core.Res()
+    for cfg in chunk:
+        check_long_strings(r, cfg)
+    return r
+
+
 def _w_ctor(_):
     r = core.Res()
     check_ctor(r)
@@ -171,8 +256,22 @@ def run(ctx):
     n = 6 if ctx.quick else 8
     cfgs = configs(ctx.quick)
     ctx.pmap(_w, [(n, c) for c in core.chunks_of(cfgs, 8 if ctx.quick else 2)])
+    wide = []
+    for k in (3, 6, 7, 8, 10) if ctx.quick else (3, 6, 7, 8, 9, 10, 12):
+        for lo in AWKWARD:
+            for hi in AWKWARD:
+                if float(lo) <= float(hi) or (lo, hi) in (('0.6', '0.4'),):
+                    wide.append((k, lo, hi, min(k + 2, 11)))
+    ctx.pmap(_w_wide, core.chunks_of(wide, 12))
+    longs = []
+    for k in (4, 6, 8, 10):
+        for run, gc, mot in [(2, ('0.4', '0.6'), ['AGA', 'GAG', 'CTC', 'TCT']), (3, None, None), (None, ('0.1', '0.3'), None),
+                             (2, ('0.5', '0.5'), ['AGCT', 'GCC']), (None, None, ['ACG', 'TT']), (6, None, None), (4, ('0.29', '0.71'), ['GC'])]:
+            cfg = (k, None if run is None else min(run, k), gc, None if mot is None else [m for m in mot if len(m) <= k])
+            longs.append(cfg)
+    ctx.pmap(_w_long, [[c] for c in longs])
     ctx.pmap(_w_ctor, [0], nproc=1)
-    ctx.bounds = {'strings_up_to': n, 'configurations': len(cfgs), 'k': [1, 5]}
+    ctx.bounds = {'strings_up_to': n, 'configurations': len(cfgs), 'k': [1, 5], 'wide_window_gc_grid': '%d (k, lo, hi) with k up to %d and 28 decimals incl. 0.29, 0.57, 0.58, 0.335, on all {A,C}-strings up to length k+2' % (len(wide), 10 if ctx.quick else 12), 'long_strings': '%d configurations at k=4,6,8,10 on 50-nt periodic strings with a run/motif planted at every offset' % len(longs)}
     ctx.rule = ('one case = (configuration, string): whole-sequence verdict against an exact-rational reference predicate, '
                 'last-window verdict against the verdict of the final window, conjunction over windows (window-decidable '
                 'configurations), reverse-complement symmetry, foreign characters; states = configurations; non-trivial = '
